@@ -7,7 +7,7 @@
 //!        TWENTY_FIRST_MERKLE_TREE_PARALLELIZATION_CUTOFF=<cutoff> (or removed) and RAYON_NUM_THREADS=<threads>,
 //!        because the cut-off is a lazy static read once per process.  The child runs under a timeout; a hang is
 //!        reported as `timeout` + ORACLE-FAIL with the op line (which carries the environment) as replay.
-use crate::registry::c04::{gen_indices, rand_leaves, ref_tree};
+use crate::registry::c04::{boundary_cross, gen_indices, rand_leaves, ref_tree};
 use crate::util::*;
 use std::io::{Read, Write};
 use std::process::{Command, Stdio};
@@ -47,9 +47,32 @@ fn tree_reply(ds: &[Digest], st: &mut Stats) -> Out {
     }
 }
 
-fn run_child(cutoff: &Arg, threads: usize, line: &str) -> Result<String, String> {
+/// `<n>` or `t<n>m<hex CPU affinity mask>` (the child then runs under `taskset <mask>`)
+fn parse_threads(a: &Arg) -> Option<(usize, Option<String>)> {
+    match a {
+        Arg::Nat(n) => Some((*n as usize, None)),
+        Arg::Sym(s) => {
+            let rest = s.strip_prefix('t')?;
+            let (n, m) = rest.split_once('m')?;
+            if m.is_empty() || !m.chars().all(|c| c.is_ascii_hexdigit()) {
+                return None;
+            }
+            Some((n.parse().ok()?, Some(m.to_string())))
+        }
+        _ => None,
+    }
+}
+
+fn run_child(cutoff: &Arg, threads: usize, mask: &Option<String>, line: &str) -> Result<String, String> {
     let exe = std::env::current_exe().map_err(|e| e.to_string())?;
-    let mut cmd = Command::new(exe);
+    let mut cmd = match mask {
+        Some(m) if std::path::Path::new("/usr/bin/taskset").exists() => {
+            let mut c = Command::new("/usr/bin/taskset");
+            c.arg(m).arg(exe);
+            c
+        }
+        _ => Command::new(exe),
+    };
     cmd.arg("run").stdin(Stdio::piped()).stdout(Stdio::piped()).stderr(Stdio::null());
     match cutoff {
         Arg::Sym(s) if s == "unset" => { cmd.env_remove(ENV_CUTOFF); }
@@ -91,7 +114,7 @@ pub fn run_mtb(op: &str, a: &[Arg], st: &mut Stats) -> Option<Out> {
     Some(match (op, a) {
         ("build", [ds]) => tree_reply(&ds.digests()?, st),
         ("build_env", [cutoff, threads, ds]) => {
-            let threads = threads.usize()?;
+            let (threads, mask) = parse_threads(threads)?;
             let digests = ds.digests()?;
             let n = digests.len();
             let c: Option<u128> = match cutoff { Arg::Nat(c) if *c <= usize::MAX as u128 => Some(*c), _ => None };
@@ -100,10 +123,10 @@ pub fn run_mtb(op: &str, a: &[Arg], st: &mut Stats) -> Option<Out> {
             let par_levels = { let mut cnt = (n / 2) as u128; let mut k = 0; while cnt > 0 && cnt >= eff { k += 1; cnt /= 2; } k };
             let total_levels = if n > 1 { n.ilog2() } else { 0 };
             st.hit(&format!("build_env:cutoff={}", match cutoff { Arg::Nat(c) if *c > 1 << 20 => "huge".to_string(), Arg::Nat(c) => c.to_string(), Arg::Sym(s) => s.clone(), _ => "neg".into() }));
-            st.hit(&format!("build_env:threads={}", threads));
+            st.hit(&format!("build_env:threads={}{}", threads, match &mask { Some(m) => format!(",affinity-mask=0x{}", m), None => String::new() }));
             st.hit(&format!("build_env:levels:{}", if n <= 1 || !n.is_power_of_two() { "none" } else if par_levels == 0 { "all-sequential" } else if par_levels == total_levels { "all-parallel" } else { "mixed" }));
             let line = format!("mtb build {}", fmt_digests(&digests));
-            match run_child(cutoff, threads, &line) {
+            match run_child(cutoff, threads, &mask, &line) {
                 Ok(reply) => {
                     let (r, child_oracle) = match reply.split_once("\tORACLE-FAIL:") { Some((r, o)) => (r.to_string(), Some(o.to_string())), None => (reply, None) };
                     // the same tree as built in this process (different cut-off / thread count) and as the reference
@@ -153,6 +176,19 @@ pub fn gen(rng: &mut Rng, thorough: bool, out: &mut Vec<String>) {
             }
         }
     }
+    // mid-size trees with the hand-off between the parallel and the sequential loop at every level, pinned and unpinned
+    let mid: &[usize] = if thorough { &[16, 32, 64, 128, 256] } else { &[16, 64] };
+    for &n in mid {
+        let leaves = rand_leaves(rng, n);
+        let mut level = 1usize;
+        while level <= n {
+            for c in [level.saturating_sub(1), level, level + 1] {
+                let t = *rng.pick(&["1", "2", "16", "t16m1", "t4m3", "t2m1"]);
+                out.push(format!("mtb build_env {} {} {}", c, t, fmt_digests(&leaves)));
+            }
+            level *= 2;
+        }
+    }
     // non-powers of two and the empty list are rejected under every cut-off, too
     for c in ["0", "1", "unset"] {
         out.push(format!("mtb build_env {} 2 []", c));
@@ -164,7 +200,8 @@ pub fn gen(rng: &mut Rng, thorough: bool, out: &mut Vec<String>) {
     let big: &[(usize, &[&str], &[usize])] = if thorough {
         &[(512, &["unset", "abc", "0", "1", "2", "3", "255", "256", "257", "1073741824"], &[1, 2, 16]),
           (1024, &["unset", "0", "1", "3", "128", "256", "257", "512", "513"], &[1, 2, 16]),
-          (4096, &["unset", "0", "1", "1000", "2048", "2049"], &[1, 16])]
+          (4096, &["unset", "0", "1", "1000", "2048", "2049"], &[1, 16]),
+          (16384, &["unset", "0", "8192"], &[16])]
     } else {
         &[(512, &["unset", "0", "256", "257", "1"], &[2, 16]), (1024, &["unset", "3", "512"], &[16])]
     };
@@ -173,16 +210,21 @@ pub fn gen(rng: &mut Rng, thorough: bool, out: &mut Vec<String>) {
         for c in *cs { for t in *ts { out.push(format!("mtb build_env {} {} {}", c, t, fmt_digests(&leaves))); } }
     }
     // ---- random (cut-off, threads, size) triples with the cut-off around a level size
-    let rounds = if thorough { 300 } else { 40 };
+    let rounds = if thorough { 1200 } else { 40 };
     for _ in 0..rounds {
         let k = rng.range(0, if thorough { 8 } else { 6 }) as usize;
         let n = 1usize << k;
         let level = 1u64 << rng.below(k as u64 + 1);
         let c = match rng.below(5) { 0 => "unset".to_string(), 1 => "0".to_string(), _ => rng.around(level, 1).to_string() };
-        out.push(format!("mtb build_env {} {} {}", c, rng.pick(&[1usize, 2, 3, 16]), fmt_digests(&rand_leaves(rng, n))));
+        out.push(format!("mtb build_env {} {} {}", c, rng.pick(&["1", "2", "3", "16", "t16m1", "t3m3"]), fmt_digests(&rand_leaves(rng, n))));
+    }
+    // ---- requests with an out-of-range index (boundary set) are errors, never panics, for every tree size
+    for h in [0usize, 1, 3] {
+        let leaves = rand_leaves(rng, 1usize << h);
+        boundary_cross(rng, h, &leaves, out);
     }
     // ---- honest proofs: any index list, any order, with repetitions (ops of family `mt`, oracles in c04.rs)
-    let trees = if thorough { 300 } else { 50 };
+    let trees = if thorough { 700 } else { 50 };
     for t in 0..trees {
         let h = if t % 25 == 24 { 9 } else { rng.range(0, 7) as usize };
         let n = 1usize << h;
